@@ -38,6 +38,9 @@ type c20Case struct {
 	WarmAll bool    `json:"warm_all,omitempty"` // verify every height individually first
 	Op      c20Op   `json:"op"`
 	Lie     *c20Lie `json:"lie,omitempty"`
+	// Grow: the node has committed all but the last block when it answers the operation (a "latest" request) and commits the last
+	// block right after producing that answer, before the verifying client turns to its light client
+	Grow bool `json:"chain_grows_after_the_answer,omitempty"`
 }
 
 type c20Env struct {
@@ -117,6 +120,10 @@ func (e *c20Env) run(r *vr.Report, c c20Case) c20Result {
 		panic("c20: unknown chain " + c.Chain)
 	}
 	ch.activate()
+	if c.Grow {
+		ch.setVis(ch.tip - 1)
+		defer ch.setVis(0)
+	}
 	sut, err := c20NewSUT(ch, c.LC)
 	if err != nil {
 		panic(fmt.Sprintf("c20: light client cannot be initialised on the honest chain: %v", err))
@@ -136,6 +143,15 @@ func (e *c20Env) run(r *vr.Report, c c20Case) c20Result {
 
 	if c.Lie == nil {
 		answers := c20NodeAnswers(hres, herr)
+		if c.Grow {
+			grown := false
+			sut.primary.afterServe = func(method, key string) {
+				if !grown && method == c.Op.M {
+					grown = true
+					ch.setVis(ch.tip)
+				}
+			}
+		}
 		res, err, pan := c20Call(api, ch, c.Op)
 		out := c20Result{nontriv: sut.primary.callCount("commit")+sut.witness.callCount("commit") > commitCallsBefore}
 		if err == nil && pan == "" && res != nil {
@@ -361,7 +377,7 @@ func c20Warms(ch *c20Chain, depth int) [][]c20Op {
 func TestVerifC20Relay(t *testing.T) {
 	r := vr.Start("C20", "relay", 110*time.Second, 20*time.Minute)
 	defer r.Finish()
-	r.Rule = "honest: chain x light-client (anchor, mode) x warm-up prefix (heights already trusted, depth<=1 quick / <=2 thorough) x every operation " +
+	r.Rule = "honest: every latest-height operation while the chain grows by one block between the node's answer and the light-client update; chain x light-client (anchor, mode) x warm-up prefix (heights already trusted, depth<=1 quick / <=2 thorough) x every operation " +
 		"(9 methods x every height/page/key/tx); falsified: light-client config x operation x every single-field falsification of the response the " +
 		"client consumes (its own RPC call, or the /commit and /validators calls of its light-client provider at the target and neighbouring heights). " +
 		"non-trivial = honest cases in which the light client had to fetch and verify at least one new header, and falsified cases whose falsification " +
@@ -467,6 +483,21 @@ func TestVerifC20Relay(t *testing.T) {
 
 	names := []string{"rich", "plain"}
 	depth := vr.Pick(1, 2)
+	// 0. honest, "latest" requests while the chain grows by one block between the node's answer and the client's light-client update
+	for _, name := range names {
+		ch := e.chains[name]
+		for _, lc := range c20LCs(ch) {
+			if lc.Anchor >= ch.tip {
+				continue
+			}
+			for _, op := range c20Ops(ch) {
+				if op.H != 0 || op.Unknown || op.M == "tx" || op.M == "blockchain" || op.M == "block_by_hash" {
+					continue
+				}
+				try(c20Case{Chain: name, LC: lc, Op: op, Grow: true})
+			}
+		}
+	}
 	// 1. falsified (the rich chain; the plain chain for the methods where an empty chain is a boundary)
 	for _, name := range names {
 		ch := e.chains[name]
